@@ -48,10 +48,9 @@ def cigar_str(cigar):
 
 
 def spec_rec(flags, pos, cigar, seqlen):
-    """What SAMv1 defines for the record, or None when an operation code is outside M..B."""
+    """What SAMv1 defines for the record. Codes 10..15 are not operations of SAMv1: they describe
+    nothing, so they consume neither query nor reference and are neither S nor H (they are in no set below)."""
     ops = [(w & 15, w >> 4) for w in cigar]
-    if any(t > B for t, _ in ops):
-        return None
     reflen = sum(n for t, n in ops if t in REF)
     qlen = sum(n for t, n in ops if t in QUERY)
     if flags & UNMAPPED or not ops:
@@ -97,8 +96,6 @@ def oracle(c, o):
     out = []
     if op == 'rec':
         sp = spec_rec(c['flags'], c['pos'], c['cigar'], c['seqlen'])
-        if sp is None:
-            return out          # operation code outside the property's quantifier (C11)
         desc = 'pos=%d flags=%#x cigar=%s seqlen=%d' % (c['pos'], c['flags'], cigar_str(c['cigar']), c['seqlen'])
         for k in ('end', 'len', 'lengths', 'isvalid', 'bin'):
             got, pan = val(o, k)
@@ -317,7 +314,7 @@ def gen_cigar(rng):
             n = rng.randrange(0, 40) if rng.random() < 0.8 else gen_len(rng)
             c.append(mk(t, n))
         return c
-    # operation codes outside M..B (10 = '?', 11..15 undefined): outside the property's quantifier
+    # operation codes outside M..B (10 = '?', 11..15 undefined): they consume nothing (Consumes clamps them to lastCigar)
     ops.insert(rng.randrange(0, len(ops) + 1), mk(rng.randrange(10, 16), gen_len(rng)))
     return ops
 
@@ -340,13 +337,11 @@ def gen_recs(rng, tier):
         if cg and rng.random() < 0.45:
             sh = rng.choice([14, 14, 17, 20, 23, 26])
             tgt = (((max(pos, 0) >> sh) + 1) << sh) + rng.choice([-1, 0, 0, 1])
-            sp = spec_rec(0, pos, cg, 0)
-            if sp is not None:
-                need = tgt - sp['end']
-                if 0 < need < (1 << 28) and tgt <= TOP29:
-                    cg = cg + [mk(rng.choice([M, D, N, EQ, X]), need)]
-                    if rng.random() < 0.3:
-                        cg.append(mk(rng.choice([S, H, I, P]), gen_len(rng)))
+            need = tgt - spec_rec(0, pos, cg, 0)['end']
+            if 0 < need < (1 << 28) and tgt <= TOP29:
+                cg = cg + [mk(rng.choice([M, D, N, EQ, X]), need)]
+                if rng.random() < 0.3:
+                    cg.append(mk(rng.choice([S, H, I, P]), gen_len(rng)))
         ops = [(w & 15, w >> 4) for w in cg]
         q = sum(l for t, l in ops if t in QUERY)
         seqlen = q if rng.random() < 0.65 else rng.choice([q + 1, max(q - 1, 0), 0, rng.randrange(0, 500)])
@@ -441,7 +436,7 @@ def strip(o):
 def bucket(c, o):
     if c['op'] == 'rec':
         ts = [w & 15 for w in c['cigar']]
-        kind = 'empty' if not ts else 'unknown-op' if max(ts) > B else 'back' if B in ts else 'clipped' if (S in ts or H in ts) else 'plain'
+        kind = 'empty' if not ts else 'undefined-op' if max(ts) > B else 'back' if B in ts else 'clipped' if (S in ts or H in ts) else 'plain'
         pan = any('panic' in (o.get(k) or {}) for k in ('end', 'len', 'bin', 'lengths', 'isvalid'))
         return 'rec/%s/%s%s' % (kind, 'unmapped' if c['flags'] & 4 else 'mapped', '/panic' if pan else '')
     if c['op'] == 'newop':
@@ -454,7 +449,7 @@ def bucket(c, o):
 def nontrivial(c):
     if c['op'] == 'rec':
         ts = [w & 15 for w in c['cigar']]
-        return bool(ts) and max(ts) <= B and not c['flags'] & 4
+        return bool(ts) and not c['flags'] & 4
     if c['op'] == 'newop':
         return 0 <= c['n'] < (1 << 28) and c['t'] < 16
     return c['b1'] < c['e2'] and c['b2'] < c['e1'] and c['b1'] < c['e1'] and c['b2'] < c['e2']
@@ -487,7 +482,7 @@ def run(res, rng, tier):
     res.evaluations += swept
     res.extra['sweep_intervals_and_pairs'] = swept
     terms = []
-    unknown_panics = 0
+    undefined_ops = 0
     for c, o in zip(cases, obs):
         res.evaluations += 1
         res.count(bucket(c, o))
@@ -498,8 +493,8 @@ def run(res, rng, tier):
         if 'hang' in o or 'crash' in o or 'bad_case' in o or 'garbled' in o:
             res.corr_bad.append(dict(case=c, obs=strip(o)))
             continue
-        if c['op'] == 'rec' and any((w & 15) > 10 for w in c['cigar']) and 'panic' in (o.get('lengths') or {}):
-            unknown_panics += 1
+        if c['op'] == 'rec' and any((w & 15) > B for w in c['cigar']):
+            undefined_ops += 1
         terms.append((c, o, coq_term(c, o)))
     bad, err = core.coq_mismatches(HEADER, 'c16case', 'c16_agree', [t[2] for t in terms], 'c16', shard=400)
     if err:
@@ -508,15 +503,16 @@ def run(res, rng, tier):
         c, o, t = terms[i]
         res.corr_bad.append(dict(case=c, obs=strip(o), coq_case=t if len(t) < 4000 else t[:4000] + '...',
                                  note='the Coq model (Model/Cigar.v, Model/Bins.v, Generated.v) or the Coq specification (Model/SamSpecArith.v) disagrees with the implementation on this case'))
-    if unknown_panics:
-        res.notes.append('%d generated CIGARs contain an operation code 11..15; Lengths/End/IsValid panic on them (consume[ct] out of range) exactly as the model predicts '
-                         '(theorem unknown_op_panics). Such codes are outside C16\'s quantifier (nine standard operations plus B) and belong to C11.' % unknown_panics)
-    res.rule = ('records: positions biased to the tile boundaries of all six BAI levels (and -1, 2^29-1, beyond), CIGARs over all nine operations plus B '
+    if undefined_ops:
+        res.notes.append('%d generated CIGARs contain an operation code 10..15 (not an operation of SAMv1); since the library fix '
+                         '"CigarOpType.Consumes of an undefined operation type (11..255) uses the lastCigar entry" they consume nothing; they are judged by the oracle '
+                         'and covered by the theorems like every other CIGAR (theorems undefined_op_consumes_nothing, record_arith_total).' % undefined_ops)
+    res.rule = ('records: positions biased to the tile boundaries of all six BAI levels (and -1, 2^29-1, beyond), CIGARs over all nine operations plus B and the undefined codes 10..15 '
                 '(plain, clipped incl. broken clipping, backwards moves, lengths 0..2^28-1, ends aimed at tile boundaries +-1), all flag combinations of 0x4/0x8; '
                 'NewCigarOp over all 16 type codes x legal/illegal lengths; BAI and CSI interval pairs (22 fixed geometries + random ones, depth 0..10, min_shift 0..32) '
                 'placed touching / adjacent / nested / equal / apart around tile boundaries of every level; plus exhaustive sweeps inside the harness '
                 '(all interval pairs of small CSI geometries, all tile-boundary+-1 intervals and pairs in windows of consecutive 16 KiB tiles) counted in evaluations. '
-                'A case is distinct by its full input; non-trivial = mapped record with a non-empty CIGAR of known operations, legal NewCigarOp, or an overlapping interval pair')
+                'A case is distinct by its full input; non-trivial = mapped record with a non-empty CIGAR, legal NewCigarOp, or an overlapping interval pair')
     pick = [i for i, c in enumerate(cases) if c['op'] == 'rec'][:2] + [i for i, c in enumerate(cases) if c['op'] == 'bai'][:1] + [i for i, c in enumerate(cases) if c['op'] == 'csi'][:2]
     res.samples = [dict(case=cases[i], observed=strip(obs[i])) for i in pick]
     res.extra['traces_validated_against_impl'] = len(terms)
@@ -539,7 +535,7 @@ def replay(res, rp):
 
 TRUSTED = [
     'Coq 8.16.1 kernel (coqc); vm_compute used for case evaluation and for the closed numeric facts about the generated tables',
-    'translator /verif/gen (gen/main.go, gen/emit_c16.go): BinFor, CigarOp.Type/Len, NewCigarOp, the consume table, the guard and constant of Record.Bin and all level constants '
+    'translator /verif/gen (gen/main.go, gen/emit_c16.go): BinFor, CigarOp.Type/Len, NewCigarOp, CigarOpType.Consumes and the consume table, the guard and constant of Record.Bin and all level constants '
     'are regenerated from the Go source on every run; the loops (Record.End, Cigar.Lengths, Cigar.IsValid, OverlappingBinsFor, reg2bin, reg2bins) are hand-written in '
     'coq/Model/Cigar.v and coq/Model/Bins.v and validated on every run by evaluating them inside Coq on the cases the implementation ran',
     'Go int (64 bit) is modelled as unbounded Z; uint32/uint8/int64 conversions wrap explicitly',
@@ -552,16 +548,16 @@ ASSUME = [
     'the B operation moves backwards on the reference; the end of an alignment with B is the rightmost position reached (library documentation; SAMv1 has no B)',
     'a mapped read whose CIGAR consumes no reference has end = pos, so its bin is reg2bin(pos, pos) by the letter of 4.2.1 (htslib uses length one instead)',
     'CSI geometries with depth <= 10 and min_shift + 3*depth <= 62 (bins fit uint32, coordinates fit int64); the model also follows the code outside this range but no theorem is claimed there',
-    'operation codes 10..15 are outside the property (C11)',
+    'operation codes 10..15 are not operations of SAMv1; the specification side treats them as consuming nothing (the library clamps them to its empty lastCigar row)',
 ]
 
 CLAIM = dict(
-    text='Machine-checked proof (Coq 8.16.1): for every position and every CIGAR over the nine standard operations plus B, the models of Record.End/Len/Bin and Cigar.Lengths/IsValid '
-         '(loops hand-modelled statement by statement; Type/Len/NewCigarOp, the consume table, BinFor and Record.Bin regenerated from the Go source on every run) equal the values the SAM '
+    text='Machine-checked proof (Coq 8.16.1): for every position and every CIGAR (every list of uint32 words: the nine standard operations, B, and the undefined codes 10..15 which consume nothing), the models of Record.End/Len/Bin and Cigar.Lengths/IsValid '
+         '(loops hand-modelled statement by statement; Type/Len/NewCigarOp, Consumes and the consume table, BinFor and Record.Bin regenerated from the Go source on every run) equal the values the SAM '
          'specification defines; BinFor/OverlappingBinsFor equal the C functions of SAMv1 5.3 and reg2bin/reg2bins equal the CSI functions for every (min_shift, depth<=10); '
          'for every overlapping pair of intervals the bin of one is in the bin list of the other (BAI and every CSI geometry, by monotonicity of x/2^s and induction on the level), '
          'bin lists are exactly the bins meeting the query; CSI(14,5) = BAI. Models are run against the implementation inside coqc on generated cases on every run.',
     note='Trusted: Coq kernel; translator gen/ for the generated definitions; hand models of the loops tied by correspondence only; Go int as unbounded Z. '
-         'Operation codes 11..15 make End/Lengths/IsValid panic (proved for the model, observed on the implementation) and are outside the quantifier (C11). No axioms.',
+         'Consumes never panics (proved over the regenerated function). No axioms.',
     technique='Coq proof over source-regenerated Gallina and hand models + vm_compute correspondence + spec oracle',
     design='6/C16')
